@@ -26,6 +26,9 @@ def run(ctx):
     ctx.rule("R-DELIVER-ARGS", "single-frame (non multi-PG) delivery on the FD stack hands listeners the frame's own fields", floor=2)
     layout.deliver_args(ctx, L)
     mpg.misc(ctx, L)
+    from rules import ca
+    ctx.rule("R-CA-LOOPS", "the FD destination filter rejects a frame only after every CA was asked", floor=2)
+    ca.ca_loops(ctx, "J1939_22")
     ctx.rule("R-MPG-COPY", "a buffered group holds its own copy of the payload and its length", floor=1)
     mpg.copy_rule(ctx, L)
     TM.wake(ctx, L, tables=("_multi_pg_snd_buffer",), funcs=(L.send_pgn,))
